@@ -1,7 +1,7 @@
 (* C13 — property theorems only.  Each is closed by `exact <lemma>` and followed by
    Print Assumptions; the check re-compiles this file on every run. *)
 From Coq Require Import List NArith ZArith Bool.
-From MW Require Import Common.Str C13.Val C13.Gen_classes C13.Model C13.Wf C13.Proofs C13.ProofsRT C13.ProofsId C13.ProofsCanon C13.ProofsApi.
+From MW Require Import Common.Str C13.Val C13.Gen_classes C13.Model C13.Wf C13.Proofs C13.ProofsRT C13.ProofsId C13.ProofsCanon C13.ProofsApi C13.ModelEdit C13.ProofsEdit.
 Import ListNotations.
 
 (* Values: VObj c f = instance of metabook class c with attribute map f (the `type` entry is c itself);
@@ -179,3 +179,54 @@ Example C13_example_api :
   exists m, build_from (new_obj (lower k_Collection) []) ops = Some m /\ length (walk_items m) = 3%nat.
 Proof. exact ex_api. Qed.
 Print Assumptions C13_example_api.
+
+(* ---------------------------------------------------------------------------------------------------------
+   The LIFE of one metabook object.  Besides the API calls above, a consumer edits the object in place, at any depth
+   (ModelEdit.v: edit_at path e follows .items[i % len] for every i of path, then setattr / items.append / insert / pop /
+   reverse / append to a list-valued attribute / assignment inside a dict or object held by an attribute; an edit that does
+   not apply is skipped).  edit_ok e: the values written are wf and nothing called `type` / `self` is written. *)
+
+(* an in-place edit at any depth keeps the metabook in the theorems' domain *)
+Theorem C13_edit_at_wf : forall e, edit_ok e -> forall path v, wf v -> wf (edit_at path e v).
+Proof. exact edit_at_wf. Qed.
+Print Assumptions C13_edit_at_wf.
+
+(* every state reached by API calls interleaved with in-place edits (none of which raised) is wf, round-trips and
+   re-serialises to the same JSON value *)
+Theorem C13_live_roundtrip : forall kw0 ops m,
+  kw_ok kw0 -> Forall xop_ok ops -> live_from (new_obj (lower k_Collection) kw0) ops = Some m ->
+  wf m /\ nf (of_json (to_json m)) = nf m /\ to_json (of_json (to_json m)) = to_json m.
+Proof. exact live_wf. Qed.
+Print Assumptions C13_live_roundtrip.
+
+(* calc_checksum = hexH (dumps (to_json m)) has no memory: for two moments m1 (after ops1) and m2 (after ops1 ++ ops2) of
+   one object's life -- unless sha256 collides on the two dumps or the printer prints two different JSON values alike --
+   the checksum changes exactly when the dumped JSON value changes, i.e. exactly when the metabook (nf) changes *)
+Theorem C13_checksum_over_life : forall dumps hexH kw0 ops1 ops2 m1 m2,
+  kw_ok kw0 -> Forall xop_ok ops1 -> Forall xop_ok ops2 ->
+  live_from (new_obj (lower k_Collection) kw0) ops1 = Some m1 -> live_from m1 ops2 = Some m2 ->
+  (hexH (dumps (to_json m1)) = hexH (dumps (to_json m2)) -> dumps (to_json m1) = dumps (to_json m2)) ->
+  (dumps (to_json m1) = dumps (to_json m2) -> to_json m1 = to_json m2) ->
+  (checksum dumps hexH m1 = checksum dumps hexH m2 <-> to_json m1 = to_json m2) /\
+  (checksum dumps hexH m1 = checksum dumps hexH m2 <-> nf m1 = nf m2).
+Proof. exact checksum_over_life. Qed.
+Print Assumptions C13_checksum_over_life.
+
+(* at every moment the checksum of the live object is that of a fresh copy of its content *)
+Theorem C13_checksum_of_fresh_copy : forall dumps hexH kw0 ops m,
+  kw_ok kw0 -> Forall xop_ok ops -> live_from (new_obj (lower k_Collection) kw0) ops = Some m ->
+  loads (to_json m) = Some (of_json (to_json m)) /\
+  checksum dumps hexH (of_json (to_json m)) = checksum dumps hexH m.
+Proof. exact checksum_of_fresh_copy. Qed.
+Print Assumptions C13_checksum_of_fresh_copy.
+
+(* non-vacuity: a chapter with two articles; an article's revision is changed in place (depth 2), the chapter's items are
+   reversed (depth 1), an article is appended to mb.items (depth 0), an article's title is changed: every edit applies
+   and every single one changes the normal form *)
+Example C13_example_live :
+  Forall xop_ok ex_ops1 /\ Forall xop_ok ex_edits /\
+  exists m1, live_from (new_obj (lower k_Collection) []) ex_ops1 = Some m1 /\
+  forall n, (n < length ex_edits)%nat ->
+    exists a b, live_from m1 (firstn n ex_edits) = Some a /\ live_from m1 (firstn (S n) ex_edits) = Some b /\ nf a <> nf b.
+Proof. exact ex_live. Qed.
+Print Assumptions C13_example_live.
